@@ -158,14 +158,15 @@ def run(ctx):
     ]
     ctx.assumptions += [
         "client contract: start() was called; reclaimer objects are distinct; retire(r, e) is given an e returned by an earlier tick(); stop() is called once",
-        "termination of stop(): every region that is open or being entered with an epoch below a still-queued task's epoch eventually closes, and the collector / stopping threads keep being scheduled (stated as hypotheses of gc_stop_terminates; without them stop() legitimately waits forever)",
+        "termination of stop() (gc_stop_terminates, gc_stop_terminates_regions_close, gc_stop_returns_with_all_invoked) is proved under explicit hypotheses on the execution from some moment on: client contract (stop() called, no retire in flight or starting, no tick), weak fairness of the collector thread (always enabled until finished: gc_collector_always_enabled) and of the stopping thread, capacity >= 1, and every critical region entered before the last tick eventually stores its slot and closes (regions entered later are unconstrained); without the last one stop() legitimately waits forever",
         "a retire() that has not obtained its queue ticket before stop() obtains the marker's ticket is outside the property (the task is queued behind the marker: popped in the same callback it is skipped, otherwise it stays queued)",
     ]
     ctx.gen(["gc"])
     ctx.lake_build(["Babylon.Properties.C10"])
     ctx.audit("Babylon.Properties.C10")
     if not ctx.quick:
-        ctx.leanchecker(["Babylon.GC.Model", "Babylon.Properties.C10"])
+        ctx.leanchecker(["Babylon.GC.Model", "Babylon.GC.LemmasAll", "Babylon.GC.LiveMain", "Babylon.GC.LiveRegions",
+                         "Babylon.GC.LiveEnabled", "Babylon.Properties.C10"])
     drv = ctx.driver("drv_C10")
     exe, log = build_vrt_exe("c10", SRCS, repo_cpp=REPO_CPP)
     if exe is None:
@@ -229,5 +230,5 @@ def replay(ctx, path):
 MANIFEST = {
     "technique": "Lean 4 proof (inductive invariants over all interleavings of an event-level transition system whose collector is the exact keep_reclaim loop; queue and epoch replaced by their specifications) + translator-generated shape/constant obligations + replay of real executions under a deterministic scheduler with virtual time",
     "text": "Theorems in lean/Babylon/Properties/C10.lean hold for every interleaving of retire / tick / region enter-leave / stop and collector steps, every queue capacity, batch boundary, number of clients and slots; every trace of the real GarbageCollector produced under VRT (collector thread, blocking pushes, back-off sleeps in virtual time) is checked line by line to be a path of the model, and the harness evaluates exactly-once / never-early / all-before-stop on the implementation itself",
-    "note": "Trusted: Lean kernel + 3 standard axioms; gen/gc.py; vrt/; the queue (C01/C02) and epoch (C09) specifications the model assumes, each re-validated on every replayed trace; SC interleavings only; termination of stop() is proved under explicit fairness hypotheses",
+    "note": "Trusted: Lean kernel + 3 standard axioms; gen/gc.py; vrt/; the queue (C01/C02) and epoch (C09) specifications the model assumes, each re-validated on every replayed trace; SC interleavings only; safety theorems (exactly once, never early, conservation, all invoked when stop() has returned) need no assumption beyond the client contract built into the model; termination of stop() is proved under explicit contract / fairness / regions-eventually-close hypotheses",
 }
